@@ -745,7 +745,12 @@ impl<'a, R: ?Sized + std::io::BufRead> Tokenizer<'a, R> {
 
                 // Verify we're not in a here document.
                 if !matches!(self.cross_state.here_state, HereState::None) {
-                    if self.remove_here_end_tag(&mut state, &mut result, false)? {
+                    // Only a here-document body can be completed by the end of the input; while
+                    // we are still on the tag's line there is no body to delimit (and trying
+                    // to would never make progress for an empty tag).
+                    if matches!(self.cross_state.here_state, HereState::InHereDocs)
+                        && self.remove_here_end_tag(&mut state, &mut result, false)?
+                    {
                         // If we hit end tag without a trailing newline, try to get next token.
                         continue;
                     }
